@@ -33,26 +33,26 @@ import (
 //
 //verif:fieldfn Wrapper handler
 func verifSpec_handler(payload any) error {
-	verif.HavocExcept("H.client.proxy.Wrapper.", "H.client.proxy.Manager.", "ChClosed@H.client.proxy.Wrapper.", "map_LstringR_Pclient.proxy.Wrapper", "map_LstringR_pkg.config.v1.ProxyConfigurer", "H.client.event.", "H.pkg.msg.", "H.pkg.config.v1.")
+	verif.HavocExcept("H.client.proxy.Wrapper.", "H.client.proxy.Manager.", "ChClosed@H.client.proxy.Wrapper.", "map_LstringR_Pclient.proxy.Wrapper", "map_LstringR_pkg.config.v1.ProxyConfigurer", "H.client.event.", "H.pkg.msg.", "H.pkg.config.v1.", "H.client.Control.", "H.client.SessionContext.", "ChClosed@H.client.Control.", "H.client.visitor.Manager.", "ChClosed@H.client.visitor.Manager.")
 	return verif.Any[error]()
 }
 
 //verif:contract (~/client/proxy.Proxy).Run
 //verif:trusted
 //verif:modifies *
-//verif:preserves H.client.proxy.Wrapper. H.client.proxy.Manager. ChClosed@H.client.proxy.Wrapper. map_LstringR_Pclient.proxy.Wrapper map_LstringR_pkg.config.v1.ProxyConfigurer
+//verif:preserves H.client.proxy.Wrapper. H.client.proxy.Manager. ChClosed@H.client.proxy.Wrapper. map_LstringR_Pclient.proxy.Wrapper map_LstringR_pkg.config.v1.ProxyConfigurer H.client.Control. H.client.SessionContext. ChClosed@H.client.Control. H.client.visitor.Manager. ChClosed@H.client.visitor.Manager.
 func verif_Proxy_Run(p Proxy) { _ = p.Run() }
 
 //verif:contract (~/client/proxy.Proxy).Close
 //verif:trusted
 //verif:modifies *
-//verif:preserves H.client.proxy.Wrapper. H.client.proxy.Manager. ChClosed@H.client.proxy.Wrapper. map_LstringR_Pclient.proxy.Wrapper map_LstringR_pkg.config.v1.ProxyConfigurer
+//verif:preserves H.client.proxy.Wrapper. H.client.proxy.Manager. ChClosed@H.client.proxy.Wrapper. map_LstringR_Pclient.proxy.Wrapper map_LstringR_pkg.config.v1.ProxyConfigurer H.client.Control. H.client.SessionContext. ChClosed@H.client.Control. H.client.visitor.Manager. ChClosed@H.client.visitor.Manager.
 func verif_Proxy_Close(p Proxy) { p.Close() }
 
 //verif:contract (~/client/proxy.Proxy).InWorkConn
 //verif:trusted
 //verif:modifies *
-//verif:preserves H.client.proxy.Wrapper. H.client.proxy.Manager. ChClosed@H.client.proxy.Wrapper. map_LstringR_Pclient.proxy.Wrapper map_LstringR_pkg.config.v1.ProxyConfigurer
+//verif:preserves H.client.proxy.Wrapper. H.client.proxy.Manager. ChClosed@H.client.proxy.Wrapper. map_LstringR_Pclient.proxy.Wrapper map_LstringR_pkg.config.v1.ProxyConfigurer H.client.Control. H.client.SessionContext. ChClosed@H.client.Control. H.client.visitor.Manager. ChClosed@H.client.visitor.Manager.
 func verif_Proxy_InWorkConn(p Proxy, c net.Conn, m *msg.StartWorkConn) { p.InWorkConn(c, m) }
 
 // The concrete proxy comes from the factory registered for the configuration
@@ -66,7 +66,7 @@ func verifSpec_factory(base *BaseProxy, cfg v1.ProxyConfigurer) Proxy {
 //verif:contract (~/client/proxy.Proxy).SetInWorkConnCallback
 //verif:trusted
 //verif:modifies *
-//verif:preserves H.client.proxy.Wrapper. H.client.proxy.Manager. ChClosed@H.client.proxy.Wrapper. map_LstringR_Pclient.proxy.Wrapper map_LstringR_pkg.config.v1.ProxyConfigurer
+//verif:preserves H.client.proxy.Wrapper. H.client.proxy.Manager. ChClosed@H.client.proxy.Wrapper. map_LstringR_Pclient.proxy.Wrapper map_LstringR_pkg.config.v1.ProxyConfigurer H.client.Control. H.client.SessionContext. ChClosed@H.client.Control. H.client.visitor.Manager. ChClosed@H.client.visitor.Manager.
 func verif_Proxy_SetInWorkConnCallback(p Proxy, cb func(*v1.ProxyBaseConfig, net.Conn, *msg.StartWorkConn) bool) {
 	p.SetInWorkConnCallback(cb)
 }
